@@ -417,12 +417,18 @@ def rules(ck, P):
     ft = [b for b in P.bodies if b["q"].endswith("entries_v3::EntriesV3::find_tile")]
     if ck.anchor("R-PM-RUN", "find_tile", ft, 1):
         b = ft[0]
-        conds = [ir.cmp_norm(n["c"]) for n in ir.walk_nodes(b["body"]) if n.get("k") == "if"]
+        # the two acceptance tests may be two `if`s or one `if a || b` (each alternative alone accepts); `&&` is not split
+        def alts(c):
+            c = ir.unparen(c)
+            if c.get("k") == "bin" and c.get("op") == "||":
+                return alts(c["l"]) + alts(c["r"])
+            return [c]
+        atoms = [a for n in ir.walk_nodes(b["body"]) if n.get("k") == "if" and n["c"].get("k") != "letx" for a in alts(n["c"])]
+        conds = [ir.cmp_norm(a) for a in atoms]
         leaf = any(c and c[0].endswith("run_length") and c[1] == "==" and c[2] == "0" for c in conds)
         run = False
-        for n in ir.walk_nodes(b["body"]):
-            if n.get("k") == "if":
-                c = ir.unparen(n["c"])
+        for c in atoms:
+            if True:
                 tp = [x["hid"] for p_ in b["params"] for x in ir.pat_binds(p_) if x["t"] == "u64"]
                 if c.get("k") == "bin" and c.get("op") == "<" and c["l"].get("k") == "bin" and c["l"].get("op") == "-" and ir.local_hid(c["l"]["l"]) in tp and \
                         ir.strip(c["l"]["r"]).get("k") == "field" and ir.strip(c["l"]["r"]).get("name") == "tile_id" and \
